@@ -54,7 +54,7 @@ func (c *Ctx) checkCellNonNegative(rule string) {
 			continue
 		}
 		var stores []*ssa.Store
-		for b := range lp.Blocks {
+		for _, b := range blocksInOrder(lp) {
 			for _, in := range b.Instrs {
 				if st, ok := in.(*ssa.Store); ok && isCellAddr(st.Addr) {
 					stores = append(stores, st)
@@ -67,7 +67,7 @@ func (c *Ctx) checkCellNonNegative(rule string) {
 		// clamp tests: If on (load cell) < 0 whose true successor stores the constant 0 into a cell
 		clampTest := map[*ssa.BasicBlock]bool{}
 		clampStore := map[*ssa.Store]bool{}
-		for b := range lp.Blocks {
+		for _, b := range blocksInOrder(lp) {
 			if len(b.Instrs) == 0 {
 				continue
 			}
